@@ -16,6 +16,7 @@ import JdModel
 import JdSpec
 import JdProofs.EqualsList
 import JdProofs.LcsProofs
+import JdProofs.SubAfter
 import JdProofs.Common
 
 namespace Jd
@@ -364,7 +365,7 @@ theorem diffRest_cons (o : Opts) (p : Path) (k s : Nat) (prev x y : Json) (a' b'
       else if sameContainerType o x y then
         accHunk p s prev R A
             (if (diffNode o false x y (p ++ [.idx k])).isEmpty then a'.headD .void else x) ++
-          diffNode o false x y (p ++ [.idx k]) ++
+          subAfter p (R.isEmpty && A.isEmpty) (a'.headD .void) (diffNode o false x y (p ++ [.idx k])) ++
           diffRest o p (k + 1) (k + 1) y a' b' c [] []
       else diffRest o p (k + 1) s prev a' b' c (R ++ [x]) (A ++ [y]) := by
   rw [diffRest.eq_def]
@@ -859,7 +860,7 @@ theorem strict_equals_of_diff_nil (o : Opts) (ho : dispatchTag o = .list) (hp : 
     have hr := ihR hw.2 hw'.2 (H.mono (fun x hx => by simp [DE.subtermsList, hx])
       (fun y hy => by simp [DE.subtermsList, hy])) p hd.2
     have hxy := ihN hw.1 hw'.1 (H.mono (fun x hx => by simp [DE.subtermsList, hx])
-      (fun y hy => by simp [DE.subtermsList, hy])) _ hd.1.2
+      (fun y hy => by simp [DE.subtermsList, hy])) _ ((subAfter_eq_nil_iff _ _ _ _).1 hd.1.2)
     exact ⟨hd.1.1.1, hd.1.1.2, by simp [equalsList, hxy, hr.2.2]⟩
   · intro k s prev c R A x a' y b' _ _ hA hB hs ih hw hw' H p hd
     rw [DE.diffRest_cons] at hd
